@@ -1,4 +1,8 @@
 import InToto.Properties.C11
+#print axioms InToto.C11.dsse_payload_parses_back
+#print axioms InToto.C11.canonical_reads_back
+#print axioms InToto.C11.canonical_injective
+#print axioms InToto.C11.refuse_or_exact
 #print axioms InToto.C11.refuse_nonintegral_example
 #print axioms InToto.C11.olpc_format_example
 #print axioms InToto.C11.payload_escapes_control_example
